@@ -12,6 +12,7 @@ mod fuzzrun;
 mod images;
 mod model;
 mod ops;
+mod pinwin;
 mod props;
 mod refcodec;
 mod runner;
